@@ -7,7 +7,7 @@ oracle : effect-placement programs through the real pipeline; every stage dump r
          generator says the program must have (does not go through the model)."""
 import json, os, re
 import vlib
-from props import c01
+from props import c01, dce
 
 STAGES = c01.STAGES
 
@@ -75,9 +75,16 @@ def read_cases(ctx, extra):
     return progs, ties, feats
 
 
+def _replay_is_dce(path):
+    try:
+        return json.load(open(path)).get("signature", {}).get("source") == "dce"
+    except Exception:
+        return False
+
+
 def run(ctx):
     ctx.extract()
-    lean_ok = ctx.build_lean(["GomlVerif.Props.C09"])
+    lean_ok = ctx.build_lean(["GomlVerif.Props.C09", dce.PROP_MODULE])
     if not ctx.build_harness():
         return ctx.finish("proof", {"evaluations": 0, "distinct_nontrivial": 0, "samples": []}, [], "lake build")
     extra = []
@@ -255,11 +262,18 @@ def run(ctx):
         "forms": forms, "generator": feats,
         "impl_oracle_failures": len(ctx.violations), "model_diffs": n_tie - n_tie_eq - n_tie_eqt,
     }
+    # ---- dead-code elimination (go/dce.rs): model = implementation, behaviour of its real output
+    if not ctx.replay or _replay_is_dce(ctx.replay):
+        dce_cov, found = dce.evaluate(ctx)
+        for sig, what, payload in dce.split_for_properties(found)[1]:
+            ctx.report(sig, what, payload)
+        cov["dce"] = dce_cov
+        cov["impl_oracle_failures"] = len(ctx.violations)
     ctx.assumptions += [
         "Sem (Model/Sem.lean) is the source-level meaning: call-by-value, left to right, short-circuit, fail at the failing operation; Go.Sem is our reading of the Go spec",
         "`go`: outcomes are compared under the two schedules the semantics offers (activation runs to completion at the spawn; activation never runs before the "
         "spawner ends). Real goroutine interleavings at Ref operations and Go's memory model are outside the model",
-        "theorems are about Model/Anf.lean; it speaks about anf.rs through the exact L1 tie (every run) — go/compile.rs statement lowering and go/dce.rs are validated by the oracle only (dce.rs is modelled by worker dce)",
+        "theorems are about Model/Anf.lean; it speaks about anf.rs through the exact L1 tie (every run) — go/compile.rs statement lowering is validated by the oracle only; go/dce.rs has its own model (Model/Dce.lean, Props/Dce.lean: dce_preserves) tied by `gv dce`",
         "anf_preserves_partial / anf_file_preserves_partial: a source run that goes wrong (Fail.stuck: ill-typed IR) is only required to be matched by some outcome; typing of the IR is C03's property",
         "no source entity is spelled like an ANF temporary (C19 local_vs_temp_disjoint): hypothesis `tmpFresh` of anf_preserves, counted per function in coverage",
     ]
